@@ -5,7 +5,9 @@ package objects
 
 import (
 	"encoding/binary"
+	"fmt"
 	"io"
+	"math"
 
 	"github.com/wrgl/wrgl/pkg/encoding"
 )
@@ -46,6 +48,10 @@ func writeValueCounts(w io.Writer, buf encoding.Bufferer, a ValueCounts) (int64,
 		}
 		total += int64(n)
 
+		if len(vc.Value) > math.MaxUint16 {
+			// the length prefix has 16 bits: a longer value would be written under a wrapped length
+			return 0, fmt.Errorf("value is too long (%d > %d bytes)", len(vc.Value), math.MaxUint16)
+		}
 		l := uint16(len(vc.Value))
 		binary.BigEndian.PutUint16(b, l)
 		n, err = w.Write(b[:2])
